@@ -1489,7 +1489,55 @@ fn case_strategy() -> impl Strategy<Value = Case> {
 // Entry points
 // ---------------------------------------------------------------------------------------------
 
+// ------------------------------------------------------------------------------------------------
+// hist sub-check: adapters inside the history machine (armed / re-armed for the other direction / dropped / handed to
+// callbacks, from between dispatches and from inside callbacks of the same batch), judged by the monitor's adapter
+// rules: a stored waker is woken once the fd is ready for what it last asked for; the fd is registered with that interest
+
+fn hist_profile() -> Vec<(&'static str, crate::hist::ops::Profile, u32, u32)> {
+    let mut p = crate::hist::ops::Profile::base();
+    p.k_ping = 3;
+    p.k_gen = 2;
+    p.k_exec = 2;
+    p.o_exec = 3;
+    p.o_async = 16;
+    p.o_cause = 10;
+    p.o_token = 6;
+    p.o_insert = 6;
+    p.post_pct = 20;
+    p.max_ops = 40;
+    vec![("hist", p, 20_000, 400_000)]
+}
+
+pub static HIST: crate::props::histprops::HistProp = crate::props::histprops::HistProp {
+    id: "C17",
+    meta: &META,
+    profiles: hist_profile,
+    nontrivial: |f| f.adapter_waits_armed > 0 && f.in_cb_ops > 0,
+    classes: |f, c| {
+        if f.adapter_waits_armed > 0 {
+            c.push("hist_adapter_wait_armed");
+        }
+        if f.adapters_given > 0 {
+            c.push("hist_adapter_owned_by_a_callback");
+        }
+    },
+    epoll_each_step: true,
+    workers: 8,
+    table: None,
+    extra: None,
+};
+
 pub fn check(ctx: &CheckCtx) -> Option<Found> {
+    if let Some(f) = ctx.run_replays::<crate::hist::ops::HistCase, _>("hist", |c| crate::props::histprops::run_case_for(&HIST, c)) {
+        return Some(f);
+    }
+    {
+        let (name, profile, q, th) = hist_profile().remove(0);
+        if let Some(f) = ctx.search_with(name, || crate::hist::ops::case_strategy(&profile), ctx.tier.pick(q, th), 8, None, |c| crate::props::histprops::run_case_for(&HIST, c)) {
+            return Some(f);
+        }
+    }
     for sub in ["io", "io_solo"] {
         if let Some(f) = ctx.run_replays::<Case, _>(sub, run_case) {
             return Some(f);
@@ -1596,7 +1644,10 @@ pub fn fuzz_subs(_ctx: &CheckCtx) -> Vec<crate::fuzz::FuzzSub> {
     vec![crate::fuzz::sub("io", case_from_bytes, run_case)]
 }
 
-pub fn replay(_ctx: &CheckCtx, _sub: &str, case: serde_json::Value) -> Result<Option<Violation>, String> {
+pub fn replay(_ctx: &CheckCtx, sub: &str, case: serde_json::Value) -> Result<Option<Violation>, String> {
+    if sub == "hist" {
+        return crate::props::histprops::hist_replay(&HIST, case);
+    }
     let c: Case = serde_json::from_value(case).map_err(|e| e.to_string())?;
     Ok(run_case(&c).1)
 }
